@@ -6,7 +6,6 @@ classifier.  Nothing here imports aioquic at module import time (plan() runs in 
 from __future__ import annotations
 
 import itertools
-import random
 
 from .frames import enc_varint
 
